@@ -136,6 +136,8 @@ def structural_invariants(m):
             if not (0 <= int(i) < n):
                 out.append(f"group {g} refers to missing row {i}")
                 break
+    if len(m.trainable_params) != len(m.indices_set_by_trainables):
+        out.append(f"{len(m.trainable_params)} trainable parameters but {len(m.indices_set_by_trainables)} index arrays")
     for p, inds in zip(m.trainable_params, m.indices_set_by_trainables):
         key = next(iter(p.keys()))
         if key not in nd.columns and key not in ed.columns:
